@@ -63,6 +63,7 @@ type CfgSpec struct {
 	DirStyle  int               `json:"dir_style,omitempty"` // how the directive text is laid out
 	ViaAPI    bool              `json:"via_api,omitempty"`   // build the Config through NewConfig + Option helpers + RegisterOperator instead of a struct literal
 	Event     string            `json:"event,omitempty"`     // "", "report", "debug"
+	Fetcher   string            `json:"fetcher,omitempty"`   // "", "embed_map", "embed_slice": how the caller built its fetcher type
 }
 
 // Plan is what the environment does during one call into the library.
@@ -394,6 +395,69 @@ func (f *SimFetcher) Cached(k eval.VariableKey, s string) bool {
 	return f.E.IsCached(int16(k), s)
 }
 
+// EmbedMapFetcher / EmbedSliceFetcher are fetchers built the way users build
+// them: a struct that embeds one of the library's fetcher types and overrides
+// Get, Set and Cached. The embedded fetcher holds stale placeholder values; a
+// library that reaches it through anything but the three interface methods
+// (an optional extra interface, a type switch on the embedded type, a promoted
+// helper method) reads those instead of what the caller's overrides serve.
+type EmbedMapFetcher struct {
+	eval.MapVarFetcher
+	S *SimFetcher
+}
+
+func (f *EmbedMapFetcher) Get(k eval.VariableKey, s string) (eval.Value, error) { return f.S.Get(k, s) }
+func (f *EmbedMapFetcher) Set(k eval.VariableKey, s string, v eval.Value) error { return f.S.Set(k, s, v) }
+func (f *EmbedMapFetcher) Cached(k eval.VariableKey, s string) bool             { return f.S.Cached(k, s) }
+func (f *EmbedMapFetcher) sim() *SimFetcher                                    { return f.S }
+
+type EmbedSliceFetcher struct {
+	eval.SliceVarFetcher
+	S *SimFetcher
+}
+
+func (f *EmbedSliceFetcher) Get(k eval.VariableKey, s string) (eval.Value, error) {
+	return f.S.Get(k, s)
+}
+func (f *EmbedSliceFetcher) Set(k eval.VariableKey, s string, v eval.Value) error {
+	return f.S.Set(k, s, v)
+}
+func (f *EmbedSliceFetcher) Cached(k eval.VariableKey, s string) bool { return f.S.Cached(k, s) }
+func (f *EmbedSliceFetcher) sim() *SimFetcher                        { return f.S }
+
+func (f *SimFetcher) sim() *SimFetcher { return f }
+
+// simOf returns the SimFetcher behind any of the harness's fetcher types.
+func simOf(vf eval.VariableFetcher) *SimFetcher {
+	if c, ok := vf.(interface{ sim() *SimFetcher }); ok {
+		return c.sim()
+	}
+	return nil
+}
+
+// WrapFetcher dresses sf as the configuration's fetcher type.
+func WrapFetcher(kind string, sf *SimFetcher, names []string) eval.VariableFetcher {
+	switch kind {
+	case "embed_map":
+		m := eval.MapVarFetcher{}
+		for i, n := range names {
+			if i%2 == 0 {
+				m[n] = "stale value of " + n // odd ones are simply absent
+			}
+		}
+		return &EmbedMapFetcher{MapVarFetcher: m, S: sf}
+	case "embed_slice":
+		sl := make(eval.SliceVarFetcher, 256)
+		for i := range sl {
+			if i%2 == 0 {
+				sl[i] = "stale slot"
+			}
+		}
+		return &EmbedSliceFetcher{SliceVarFetcher: sl, S: sf}
+	}
+	return sf
+}
+
 // OpHost routes user-operator callbacks to the Env of the call they belong to:
 // at evaluation time through the Ctx the engine passes along, at compile time
 // (ctx is nil while Compile folds constants) through CompileEnv.
@@ -411,7 +475,7 @@ type OpHost struct {
 
 func (h *OpHost) envOf(ctx *eval.Ctx) *Env {
 	if ctx != nil {
-		if f, ok := ctx.VariableFetcher.(*SimFetcher); ok {
+		if f := simOf(ctx.VariableFetcher); f != nil {
 			return f.E
 		}
 	}
